@@ -164,6 +164,18 @@ def extract():
     if not re.search(r"Some\(ctx\) => self\.handler\.handle_with_ctx\(req, ctx\)", nx) or not re.search(r"None => self\.handler\.handle\(req\)", nx): good = False
     if not re.search(r"self\.middlewares\.split_first\(\)", nx): good = False
     f["nextForwardsCtx"] = good
+    # ---- the two TCP servers echo the query of the request in hand
+    def echo_ok(conn):
+        c = " ".join(conn.split())
+        if len(re.findall(r"response_echo_query\(", c)) != 1: return False
+        if not re.search(r"let echo = crate::message::response_echo_query\(&resp, view\.query\);", c): return False
+        if not re.search(r"let view = MessageView::from_slice\(&buf\)\?;", c): return False
+        # `echo` must reach the writer untouched: no other binding of it, no other query source
+        if len(re.findall(r"\blet (?:mut )?echo\b", c)) != 1 or re.search(r"\becho\s*=[^=]", c.replace("let echo =", "")): return False
+        return len(re.findall(r"\becho\b", c)) >= 2
+    srv_conn = fn_body(src, "handle_connection")
+    asrc = test_mod_cut(strip(read("src/async_server.rs")))
+    f["serversEchoViewQuery"] = echo_ok(srv_conn) and echo_ok(fn_body(asrc, "handle_connection"))
     # the trait default itself
     tr = impl_block(src, r"pub trait HandlerErased\s*:\s*Send \+ Sync\s*\{")
     if not re.fullmatch(r"\s*self\.handle_with_ctx\(&view\.to_message\(\), ctx\)\s*", fn_body(tr, "handle_view")): raise ExtractError("HandlerErased::handle_view default not recognised")
@@ -192,7 +204,8 @@ def render(f):
     L.append(f"    nextForwardsCtx := {b(f['nextForwardsCtx'])},")
     L.append(f"    structGate := {gate_s(f['structGate'])},")
     L.append(f"    structEmptyBodyIsRead := {b(f['structEmptyBodyIsRead'])},")
-    L.append(f"    adapterGate := {gate_s(f['adapterGate'])} }}")
+    L.append(f"    adapterGate := {gate_s(f['adapterGate'])},")
+    L.append(f"    serversEchoViewQuery := {b(f['serversEchoViewQuery'])} }}")
     L.append("end Repe.Gen")
     return "\n".join(L) + "\n"
 
